@@ -720,6 +720,11 @@ m("impadjust-exact-match-returned-as-found", "ORD-IMPADJUST", ["C09", "C10"], "b
   "\t} else {\n\t\timp = imp.Adjust(uint64(maxID))\n\t}", "\t} else if imp.Version() != version || uint64(maxID) < imp.MaxID() {\n\t\timp = imp.Adjust(uint64(maxID))\n\t}", "import returned", True,
   "an exact catalog match declared with a larger max_id is not padded: later imports and locals get lower IDs (seeded change C09-r5-2)")
 
+
+m("utf8-quoted-symbol-not-validated", "TAB-UTF8", ["C02", "C07"], "break", TK,
+  "\tcase tokenString, tokenLongString, tokenSymbolQuoted:\n\t\t// Ion text is UTF-8;", "\tcase tokenString, tokenLongString:\n\t\t// Ion text is UTF-8;", "tokenSymbolQuoted validated", True,
+  "raw invalid bytes inside a quoted symbol are accepted (seeded change C07-r6-2)")
+
 os.makedirs(os.path.dirname(os.path.abspath(__file__)), exist_ok=True)
 with open(os.path.join(os.path.dirname(os.path.abspath(__file__)), "core.json"), "w") as f:
     json.dump(M, f, indent=1)
